@@ -739,7 +739,7 @@ func (e *idEnv) spec(r *report.Run, shard, nshards int) explore.Spec {
 	g0 := &ghost{Live: make([][]uint64, len(e.qs))}
 	spec := explore.Spec{
 		Name: "ids", Init: []*explore.Node{{Ctx: e.w.Root, Ghost: g0}}, Ops: e.ops, Hash: e.hash, Invariant: e.invariant,
-		MaxDepth: 6, Deadline: r.Deadline(110*time.Second, 25*time.Minute),
+		MaxDepth: 6, Deadline: r.Deadline(140*time.Second, 25*time.Minute),
 		ShardDepth: 3, Shard: shard, NShards: nshards,
 	}
 	if e.thorough {
